@@ -66,6 +66,8 @@ type Prog struct {
 	callSum     map[string]int
 	lockHelpers map[string]*lockHelperSum
 	lockNets    map[string]*lockNetSum
+	// namedResults: the variables declared in result lists (their first read gives the zero value)
+	namedResults map[*types.Var]bool
 }
 
 func shortPath(p string) string {
